@@ -30,7 +30,7 @@ MODES = {
     'C15': ['bnd_c15'],
     'C16': ['bnd_doc', 'c16_prefix', 'c16_affix', 'c16_trivial'],
     'C18': ['bnd_c18'],
-    'C19': ['c19', 'c19_inherit', 'c19_block'],
+    'C19': ['c19', 'c19_inherit', 'c19_block', 'c19_order'],
     'C20': ['bnd_c20', 'c20_nth'],
 }
 # enumerations written earlier as replay searchers (they stop at the first hit and print `NONE <cases>` otherwise); bound stated here
@@ -45,6 +45,7 @@ LEGACY_BOUND = {
     'c16_trivial': 'TrivialDecorator on 10 documents: output characters == document text characters',
     'c19': 'all pairs of colour declarations on one element: 4 origins (agent, user, author, inline) x importance x 4 selectors of different specificity, both source orders: the winner is the CSS cascade winner',
     'c19_block': '2..3 colour declarations with every importance pattern inside one rule block and inside one style attribute: the last important one wins, else the last',
+    'c19_order': 'all 27 sequences of three colour rules of equal specificity (repeats included), in one sheet or split over two add_css calls, on an element matching all of them: the last rule wins',
     'c19_inherit': '9 documents: the colour of a token is the one of the nearest ancestor-or-self with a winning declaration',
     'c14_hardwrap': '3 documents x widths 3..=8: an id whose first word is hard-wrapped still yields exactly one fragment marker',
 }
@@ -56,7 +57,7 @@ STANDS_FOR = {
     'c01_specificity': 'Selector::specificity counters at their limit', 'c20_nth': 'nth-child parser and arithmetic at the i32 limits',
     'c01_engine': 'termination of the text engine at tiny widths', 'c16_prefix': 'prefix measurement in do_render_node for custom decorators',
     'c16_affix': 'affix placement by start_X/end_X through do_render_node', 'c16_trivial': 'TrivialDecorator through the whole pipeline',
-    'c19': 'computed_style + merge_computed_style + maybe_update as a whole', 'c19_block': 'styles_from_properties + cascade inside one block / style attribute', 'c19_inherit': 'colour push/pop around children in do_render_node',
+    'c19': 'computed_style + merge_computed_style + maybe_update as a whole', 'c19_block': 'styles_from_properties + cascade inside one block / style attribute', 'c19_order': 'rule storage (do_add_css) and source order in computed_style', 'c19_inherit': 'colour push/pop around children in do_render_node',
     'c14_hardwrap': 'fragment marker through flush_word_hard_wrap',
     'bnd_doc': 'the whole pipeline on table-free documents (parse, process_dom_node, do_render_node and its closures, tree_map_reduce, render_tree_to_string): '
                'no panic, width bound, overflow option, and with the trivial decorator the document text preserved in order',
